@@ -40,8 +40,13 @@ def make_tree(dst: Path):
 
 
 def evaluate(diff: Path, run_tests: bool, props):
-    sid = f"{diff.parent.name.replace('seed-', '')}-{diff.stem.replace('change', '')}"
-    demo = diff.parent / diff.name.replace("change", "demo").replace(".diff", ".py")
+    diff = diff.resolve()
+    if diff.name == "patch.diff":  # layout of /verif/seeded/<id>/
+        sid = diff.parent.name
+        demo = diff.parent / "demo.py"
+    else:
+        sid = f"{diff.parent.name.replace('seed-', '')}-{diff.stem.replace('change', '')}"
+        demo = diff.parent / diff.name.replace("change", "demo").replace(".diff", ".py")
     tmp = Path(tempfile.mkdtemp(prefix="usa-seed-"))
     res = {"id": sid, "diff": str(diff), "demo": str(demo)}
     try:
@@ -98,7 +103,7 @@ def main() -> int:
     props = [p for p in ns.props.split(",") if p] or PROPS
     diffs = []
     for d in ns.dirs:
-        diffs += sorted(Path(d).glob("change*.diff"))
+        diffs += sorted(Path(d).glob("change*.diff")) + sorted(Path(d).glob("patch.diff")) + sorted(Path(d).glob("*/patch.diff"))
     with ThreadPoolExecutor(ns.jobs) as ex:
         results = list(ex.map(lambda d: evaluate(d, ns.tests, props), diffs))
     Path(ns.out).mkdir(parents=True, exist_ok=True)
